@@ -100,6 +100,29 @@ def oracle_symmetries(rep, rng, n, hint=None):
                 for k, v in vals.items():
                     if abs(v) > 1e-10:
                         bad = 'pure Bethe-Heitler %s = %r != 0' % (k, v)
+            if not bad and i % 3 == 1:
+                # the same parities through the package's own flip-based combinations, azimuth given by vars=
+                # (the point keeps another phi) and optionally BH-weighted (the weight is even in phi)
+                w = rng.random() < 0.4
+                combos = [('XUU', +1), ('XLU', -1)] + ([('XUL', -1)] if target == 'L' else [])
+                rep.case('oracle.combinations', (fset, target, w, i))
+                kwUnp = {k: v for k, v in kw.items() if not k.startswith('in2polarization')}
+                for nm, sg in combos:
+                    f = getattr(th, nm)
+                    kwo = dict(weighted=True) if w else {}
+                    # XUU / XLU: unpolarised target (beam sum / difference); XUL: unpolarised beam (target difference)
+                    kwc = dict(kw, in1polarization=0) if nm == 'XUL' else kwUnp
+                    pcur = g.DataPoint(**dict(kwc, phi=1.234))
+                    a = float(f(pcur, vars={'phi': phi}, **kwo))
+                    b_ = float(f(pcur, vars={'phi': mir}, **kwo))
+                    direct = float(f(g.DataPoint(**dict(kwc, phi=phi)), **kwo))
+                    sc_ = abs(float(th.XUU(g.DataPoint(**dict(kwUnp, phi=phi)), **kwo))) + abs(float(th.XUU(g.DataPoint(**dict(kwUnp, phi=mir)), **kwo)))
+                    if abs(a - direct) > 1e-9 * sc_:
+                        bad = '%s(pt, vars={phi: %r}%s) = %r but %r for a point with that phi' % (nm, phi, ', weighted' if w else '', a, direct)
+                    elif abs(b_ - sg * a) > 1e-9 * sc_:
+                        bad = '%s%s not %s under phi -> 2pi-phi (vars=): %r vs %r' % (nm, ' (weighted)' if w else '', 'even' if sg > 0 else 'odd', a, b_)
+                    if bad:
+                        break
             if not bad and i % 4 == 0:
                 # the same parity seen through the package's harmonic projection: sin harmonics of the phi-even
                 # cross section and cos harmonics (and mean) of the phi-odd beam-spin difference vanish
@@ -129,7 +152,7 @@ def run(rep):
     # flip-based observables at fixed phi: dvcs._XUU, _XLU, _AC, ... versus Scalar/Obs.lean.in on the generated XS
     import gepard as g
     olines, ometa = [], []
-    for i in range(40 if quick else 1000):
+    for i in range(120 if quick else 2000):
         fset = rng.choice(B.FORMULA_SETS)
         m = B.random_m(rng)
         th = B.theory(fset, m)
@@ -145,18 +168,27 @@ def run(rep):
         if target != 'U':
             names += ['_XUD', '_TSA', '_BTSA', '_AUTI', '_AUTDVCS', '_ALTI', '_ALTBHDVCS']
         name = rng.choice(names)
-        weighted = rng.random() < 0.2
+        weighted = rng.random() < 0.3
         p2 = g.DataPoint(**kw)
+        # a third of the calls override the azimuth through vars= (the point keeps its own phi): every term of a
+        # flip-based combination must see the same keywords
+        opts = dict(weighted=weighted)
+        phi_eval = kw['phi']
+        if rng.random() < 0.33:
+            phi_eval = rng.uniform(0, 2 * math.pi)
+            opts['vars'] = {'phi': phi_eval}
+        rep.hist('obs.options', ('weighted ' if weighted else '') + ('vars' if 'vars' in opts else '') or 'none')
         try:
             if name == '_ALTI':
-                v = float(th._CBTSA(p2, weighted=weighted))
+                v = float(th._CBTSA(p2, **opts))
             elif name == '_ALTBHDVCS':
-                v = float(th._CBTSA(p2, chargepar=+1, weighted=weighted))
+                v = float(th._CBTSA(p2, chargepar=+1, **opts))
             else:
-                v = float(getattr(th, name)(p2, weighted=weighted))
+                v = float(getattr(th, name)(p2, **opts))
         except Exception as ex:
             v = 'EXC:' + type(ex).__name__
         k2 = p2.copy()
+        k2.phi = phi_eval
         if target == 'T':
             k2.varphi = (1 - kw['varFTn']) * math.pi / 4.
         k2.prepare()
